@@ -35,12 +35,21 @@ EVENTS = {
     'abort-depth': ['parse_buf 0 ' + hx(b'include("self.conf")\n')],
     'abort-range': ['parse_buf 0 ' + hx(b'i = 99999999999999999999\n'), 'setmulti 0 69 %s' % hx(b'99999999999999999999')],
     'abort-veto': ['failat 1', 'parse_buf 0 ' + hx(b'v = 1\ni = 5\n'), 'failat 0'],
+    # the stream reports a read error: between tokens, inside a string, inside a comment, before anything
+    'abort-readerr': ['parse_fpfail 0 ' + hx(b'i = 4\n')],
+    'abort-readerr-dq': ['parse_fpfail 0 ' + hx(b's = "abc')],
+    'abort-readerr-sq': ['parse_fpfail 0 ' + hx(b"s = 'abc")],
+    'abort-readerr-comment': ['parse_fpfail 0 ' + hx(b'i = 2 /* abc')],
+    'abort-readerr-empty': ['parse_fpfail 0 .'],
     'reinit': ['free 0', 'init 0 0 0'],
     'other-ctx': ['parse_buf 1 ' + hx(b'i = 77\ns = "other'), 'parse_buf 1 ' + hx(b'il += {5}\n')],
 }
 PROBES = ['parse_buf 2 ' + hx(b'i = 3\n'), 'dump 2', 'parse_buf 2 ' + hx(b's = "q" il += {2}\nsec { a = 4 }\n'), 'dump 2',
           'lex ' + hx(b'a "b c" \'d\' /* e */ # f\n{ }'), 'parse_buf 2 ' + hx(b'include("good.conf")\n'), 'dump 2',
-          'parse_buf 2 ' + hx(b's = "' + b'z' * 40 + b'"\n'), 'dump 2', 'setmulti 2 69 35', 'dump 2']
+          'parse_buf 2 ' + hx(b's = "' + b'z' * 40 + b'"\n'), 'dump 2', 'setmulti 2 69 35', 'dump 2',
+          # the contexts with a history: what a parse reports (code, file, line, message) does not depend on it
+          'parse_buf 0 ' + hx(b'i = 3\n\nbogus = 1\n'), 'parse_buf 1 ' + hx(b'\ns = "open\n'), 'parse_buf 0 ' + hx(b'i = 4\n'),
+          'parse_buf 0 ' + hx(b'include("bad.conf")\n')]
 
 
 def scenario(sid, hist):
